@@ -120,7 +120,7 @@ func runC19(c *core.Ctx) core.Meta {
 						}
 						found = true
 						pv := prov.Of(s.Val)
-						ok2 := regexp.MustCompile(sp.want).MatchString(pv)
+						ok2 := core.ProvMatch(regexp.MustCompile(sp.want), pv)
 						st2.Ob(ok2)
 						st2.Sample("%s: %s.ID = %s", core.FuncName(fn), sp.builder, pv)
 						if !ok2 {
@@ -142,7 +142,7 @@ func runC19(c *core.Ctx) core.Meta {
 				st2.Instances++
 				k, v := prov.Of(mu.Key), prov.Of(mu.Value)
 				ok2 := strings.HasSuffix(k, ".Build().ID") && strings.Contains(k, "DataPullReqBuilder") &&
-					v == "iter({(@+recv.onDemandPagingDataTransferSize)|recv.currentMigrationRequest.ToWriteToPhysicalAddress})"
+					core.ProvEq(v, "iter({(@+recv.onDemandPagingDataTransferSize)|recv.currentMigrationRequest.ToWriteToPhysicalAddress})")
 				st2.Ob(ok2)
 				st2.Sample("%s: writeAddressMap[pullReq.ID] = %s", core.FuncName(fn), v)
 				if !ok2 {
@@ -406,7 +406,7 @@ func runC19(c *core.Ctx) core.Meta {
 			if s, ok := storeToField(in, field); ok {
 				st5.Instances++
 				pv := prov.Of(s.Val)
-				ok2 := regexp.MustCompile(want).MatchString(pv)
+				ok2 := core.ProvMatch(regexp.MustCompile(want), pv)
 				st5.Ob(ok2)
 				st5.Sample("%s: %s = %s", core.FuncName(fn), field, short(pv))
 				if !ok2 {
@@ -421,7 +421,7 @@ func runC19(c *core.Ctx) core.Meta {
 				if r, ok := in.(*ssa.Return); ok && len(r.Results) == 2 {
 					st5.Instances++
 					old := prov.Of(r.Results[1])
-					ok2 := regexp.MustCompile(`^recv\.pageTable\.Find\(.*\)\.PAddr$`).MatchString(old)
+					ok2 := core.ProvMatch(regexp.MustCompile(`^recv\.pageTable\.Find\(.*\)\.PAddr$`), old)
 					st5.Ob(ok2)
 					if !ok2 {
 						c.ReportAt("R19.5", fn, in.Pos(), "oldPAddr", "the source address returned is "+short(old)+", not the PAddr found in the page table before re-homing")
@@ -462,7 +462,7 @@ func runC19(c *core.Ctx) core.Meta {
 				return ""
 			}
 			f := core.FieldOfAddr(st.Addr)
-			if f == nil || !regexp.MustCompile(`^num\w*ACK$`).MatchString(f.Name()) {
+			if f == nil || !core.ProvMatch(regexp.MustCompile(`^num\w*ACK$`), f.Name()) {
 				return ""
 			}
 			if strings.HasSuffix(prov.Of(st.Val), "."+f.Name()+"+1)") {
@@ -478,7 +478,7 @@ func runC19(c *core.Ctx) core.Meta {
 				return
 			}
 			f := core.FieldOfAddr(st.Addr)
-			if f == nil || !regexp.MustCompile(`^num\w*ACK$`).MatchString(f.Name()) {
+			if f == nil || !core.ProvMatch(regexp.MustCompile(`^num\w*ACK$`), f.Name()) {
 				return
 			}
 			pv := prov.Of(st.Val)
